@@ -230,7 +230,7 @@ pub fn run(ctx: &mut Ctx) {
     // quick = the former thorough tier; thorough = a longer size sweep and all 2-byte continuations of every BOM
     let deep = ctx.tier.thorough();
     let thorough = true;
-    ctx.rule = "(1) 12 programs with non-ASCII text in comments and strings (valid and with a fault after the non-ASCII text, same line and later line) x 5 encodings through `ironplcc check` and `tokenize`; (2) every byte 0x00-0xFF x 4 contexts through the binary and in-process; (3) all 1-byte files (and all 2-byte files; thorough: all 2-byte continuations of every BOM) in-process and BOM-prefixed ones through the binary; (4) size sweep: a 2-, 3- or 4-byte character at every offset of a file growing to 4.3 k (thorough 20 k) characters and straddling every power of two from 4 KiB to 64 KiB in each encoding, in-process and a subset through the binary, the character also at the end of a never-closed comment, a never-closed string and directly after an identifier (pad 0..600); distinct = distinct file contents".into();
+    ctx.rule = "(1) 12 programs with non-ASCII text in comments and strings (valid and with a fault after the non-ASCII text, same line and later line) x 5 encodings through `ironplcc check` (named as a file and found through its directory) and `tokenize`; (2) every byte 0x00-0xFF x 4 contexts through the binary and in-process; (3) all 1-byte files (and all 2-byte files; thorough: all 2-byte continuations of every BOM) in-process and BOM-prefixed ones through the binary; (4) size sweep: a 2-, 3- or 4-byte character at every offset of a file growing to 4.3 k (thorough 20 k) characters and straddling every power of two from 4 KiB to 64 KiB in each encoding, in-process and a subset through the binary, the character also at the end of a never-closed comment, a never-closed string and directly after an identifier (pad 0..600); distinct = distinct file contents".into();
     ctx.assumptions.push("all non-ASCII characters used in (1) exist in Windows-1252 and their Windows-1252 bytes are not valid UTF-8 (asserted), so the intended decoding is unambiguous".into());
     ctx.assumptions.push("positions are compared as printed by the binary (line:column of the first location block)".into());
     ctx.bounds.insert("encodings".into(), json!(ENCODINGS));
@@ -256,10 +256,13 @@ pub fn run(ctx: &mut Ctx) {
             std::fs::write(&path, bytes).unwrap();
             let c = cli::run(&["check", path.to_str().unwrap()], &tmp, Duration::from_secs(30));
             let t = cli::run(&["tokenize", path.to_str().unwrap()], &tmp, Duration::from_secs(30));
+            // the same file found through its directory (how a file is reached must not matter for its encoding)
+            let cd = cli::run(&["check", dir.to_str().unwrap()], &tmp, Duration::from_secs(30));
             let inproc = match in_process(&path) {
                 Ok((s, _)) => s,
                 Err(e) => format!("ERR {}", e),
             };
+            let inproc = if outcome(&cd) != outcome(&c) { format!("ERR `check <directory>` gives {:?} but `check <file>` gives {:?}", outcome(&cd), outcome(&c)) } else { inproc };
             (*pi, *name, *enc, outcome(&c), outcome(&t), inproc)
         })
         .collect();
@@ -297,7 +300,9 @@ pub fn run(ctx: &mut Ctx) {
                     replay.clone(),
                 );
             }
-            if r.5.starts_with("ERR") {
+            if r.5.starts_with("ERR `check <directory>`") {
+                ctx.fail(&format!("directory-vs-file/{}/{}", r.2, name), &r.5, replay.clone());
+            } else if r.5.starts_with("ERR") {
                 ctx.fail(&format!("label-outside-decoded-text/{}/{}", r.2, name), &r.5, replay.clone());
             }
         }
